@@ -125,7 +125,7 @@ func (e *signhistEngine) Gen(seed uint64, tier string, run int) *Trace {
 			}
 			if c.Other != nil && r.Chance(1, 3) {
 				op.Op, op.Key2 = "SignBoth", Pick(r, []int{0, 1, 8, 21})
-				for y := r.Intn(2); y < 6; y += 1 + r.Intn(2) {
+				for y := r.Intn(2); y < 40; y += 1 + r.Intn(3) {
 					op.Sw = append(op.Sw, Switch{Yield: y, Next: 0})
 				}
 			}
@@ -183,6 +183,12 @@ type shState struct {
 }
 
 func shExec(c shCfg, ops []shOp, x *X) {
+	// an exported helper hands out padding; whoever asked for it may do with it what it likes
+	if pad, n := authenticode.PaddingBytes(1+len(c.Instant)%7, 8); n > 0 {
+		for k := range pad[:cap(pad)] {
+			pad[:cap(pad)][k] = 0x07
+		}
+	}
 	orig := c.Image.Bytes()
 	if c.Foreign != nil {
 		orig = shForeignSigned(orig, *c.Foreign)
@@ -194,15 +200,17 @@ func shExec(c shCfg, ops []shOp, x *X) {
 	}
 	// the bystander
 	var other *authenticode.PECOFFBinary
+	var otherRd *SimReader
 	var otherHash, otherBytes []byte
 	var st2 *shState
 	if c.Other != nil {
 		ob := buildPE(c.Other)
+		otherRd = &SimReader{data: ob}
 		if pe2, _, err := refPECertTable(ob); err == nil {
 			st2 = &shState{orig: ob, dirOff: pe2.CertDirOff, origData: ob}
 			st2.refHash, _ = refPEDigest(ob, true)
 		}
-		other, err = authenticode.Parse(&SimReader{data: ob})
+		other, err = authenticode.Parse(otherRd)
 		if err != nil {
 			x.Fail("signhist.parse_well_formed", -1, "Parse", "well-formed image (the second one of this run) rejected: %v", err)
 			return
@@ -253,7 +261,8 @@ func shExec(c shCfg, ops []shOp, x *X) {
 	if len(ents0) > 0 {
 		x.Probe("resign_existing_table")
 	}
-	var medium io.ReaderAt = &SimReader{data: orig}
+	mainRd := &SimReader{data: orig}
+	var medium io.ReaderAt = mainRd
 	switch c.Reader {
 	case "bytes":
 		medium = bytes.NewReader(orig)
@@ -299,6 +308,11 @@ func shExec(c shCfg, ops []shOp, x *X) {
 				plane := NewPlane(nil)
 				sched := NewSched(x, 2, op.Sw)
 				plane.yield = sched.Yield
+				// the media are yield points too while the two callers are at work (reads of one image interleave with the other's)
+				if c.Reader == "" && op.Key2%2 == 0 {
+					mainRd.p, otherRd.p = plane, plane
+					defer func() { mainRd.p, otherRd.p = nil, nil }()
+				}
 				var err1, err2 error
 				sched.Run([]func(){
 					func() { _, err1 = bin.Sign(&SimSigner{inner: pk.Key, p: plane}, pk.Cert) },
@@ -325,6 +339,10 @@ func shExec(c shCfg, ops []shOp, x *X) {
 				}
 				sig, err := bin.Sign(signer, pk.Cert)
 				x.Logf("op %d Sign(k%d) -> %d bytes err=%v", i, op.Key, len(sig), err)
+				// the signature Sign hands back is the caller's copy: it is wiped here, the image keeps its own
+				for k := range sig[:cap(sig)] {
+					sig[:cap(sig)][k] = 0xEE
+				}
 				if err != nil {
 					x.Fail("signhist.sign_succeeds", i, "Sign", "signing a well-formed image with a healthy key failed: %v", err)
 					return
